@@ -17,7 +17,8 @@ def native(contract, name, conc, notes):
     for n in notes or []:
         if n.startswith("os.read: chunk"):
             choice = int(n.rsplit(" ", 1)[1])
-    chunk = b"next chunk to send" if choice == 0 else None
+    # more bytes are waiting than any read takes: the read size is what the code under test asks for
+    chunk = bytes(range(65, 65 + 60)) if choice == 0 else None
 
     def call(args):
         f = dict(args["self"])
@@ -31,6 +32,8 @@ def native(contract, name, conc, notes):
             os.write(out_write, chunk)
         elif choice == 2:
             os.close(out_write)
+        for k, v in S.prototype_fields().items():
+            f.setdefault(k, v)
         self = RP.make_obj(cls, f)
         try:
             SM.Serial.update(self)
@@ -45,9 +48,10 @@ def native(contract, name, conc, notes):
                 left = b""
             for fd in (in_read, in_write, out_read) + (() if choice == 2 else (out_write,)):
                 os.close(fd)
-        consumed = chunk is not None and left == b""
+        taken = chunk[:len(chunk) - len(left)] if chunk is not None else b""
+        consumed = bool(taken)
         self.g_D = old_D + ([got] if got else [])
-        self.g_read = chunk if consumed else None
+        self.g_read = taken if consumed else None
         self.g_nread = nread + (1 if consumed else 0)
         self.in_write, self.out_read = 5, 6
         args["self"] = self
